@@ -462,6 +462,26 @@ func robustFamilies(c *CheckCtx, modes [][]string) []family {
 			it := items[i%len(items)]
 			return &robustCase{Exec: srcExec(cutPrefix(r, mutateTokens(r, it.Source)), pickMode(r)...)}
 		}},
+		{name: "stray-quote", n: c.N(500, 12000), gen: func(r *RNG, i int) *robustCase {
+			// a quote that was just typed and is not closed yet swallows the text up
+			// to the next quote: names and arguments that span several lines
+			src := items[i%len(items)].Source
+			if i%3 == 0 {
+				src = genProgram(r, GenOpts{Classes: true, Stmts: 6 + r.Intn(8)}).Render(nil).Text()
+			}
+			q := Pick(r, []string{"\"", "'"})
+			var idx []int
+			for _, kw := range []string{"def ", "class ", "module ", ".", "attr_accessor ", "attr_reader ", "include ", "(", ", ", "= ", "dbtp ", ":", "::", "|", "self."} {
+				for _, k := range allIndexes(src, kw) {
+					idx = append(idx, k+len(kw))
+				}
+			}
+			pos := r.Intn(len(src) + 1)
+			if len(idx) > 0 && r.Chance(4, 5) {
+				pos = Pick(r, idx)
+			}
+			return &robustCase{Exec: srcExec(src[:pos]+q+src[pos:], pickMode(r)...)}
+		}},
 		{name: "token-soup", n: c.N(300, 10000), gen: func(r *RNG, i int) *robustCase {
 			var sb strings.Builder
 			n := 1 + r.Intn(25)
